@@ -241,7 +241,7 @@ def _mk_prefetch(single, cfe):
     elif not single:
         oy, po, inv = _prefetch_catch_clauses('2')
         ms['__iter__'] = [Variant(tag + ',values', params={'with_key': 'false'}, generator=True, on_yield=oy, post=po,
-                                  requires=req, hooks=parallel_hooks(), loops={'2': inv}, props=('C06', 'C14'))]
+                                  requires=req, hooks=parallel_hooks(), loops={'2': inv}, props=('C01', 'C04', 'C06', 'C14'))]
         ms['__len__'] = [Variant(tag, post=post_len(self_view), props=('C02',))]
     C.methods = ms
     C.__name__ = 'PrefetchDatasetC_' + tag
